@@ -426,6 +426,10 @@ def gen(repo):
     for o, s in oarms:
         emit(f"  | Op_{o} => {coq_bytes(s)} (* {s.decode()} *)")
     emit("  end.")
+    emit("Definition operator_ident (o : operator) : bytes := match o with")
+    for o in ops:
+        emit(f"  | Op_{o} => {coq_bytes(o.encode())}")
+    emit("  end.")
     emit("Definition operator_index (o : operator) : nat := match o with")
     for i, o in enumerate(ops):
         emit(f"  | Op_{o} => {i}%nat")
